@@ -2,6 +2,7 @@ import BU.Properties.C11
 import BU.Properties.C11_Detect
 import BU.Properties.C11_Gen
 import BU.Properties.C11_GenAddr
+import BU.Properties.C11_GenInit
 import BU.Properties.C11_GenTop
 #print axioms C11.consts_tie
 #print axioms C11.segwit_prefixes
@@ -32,6 +33,12 @@ import BU.Properties.C11_GenTop
 #print axioms C11GenAddr.gen_segwit_address_to_hash
 #print axioms C11GenAddr.gen_segwit_roundtrip
 #print axioms C11GenAddr.gen_segwit_accept_sound
+#print axioms C11GenInit.ver_cases
+#print axioms C11GenInit.gen_segwit_init_program
+#print axioms C11GenInit.gen_segwit_init_address
+#print axioms C11GenInit.gen_segwit_init_rejects
+#print axioms C11GenInit.gen_segwit_recreate
+#print axioms C11GenInit.gen_get_segwit_address
 #print axioms C11GenTop.lowerA_eq
 #print axioms C11GenTop.upperA_eq
 #print axioms C11GenTop.any_eq
